@@ -361,6 +361,9 @@ def run(rep: vlib.Reporter, tier: str, seed: int) -> None:
     rep.add("values_vs_ref_eval", {**info_v, "cases": len(val_terms), "disagreements": len(bad_v)})
     rep.add("exec_model", {**info_e, "cases": len(ex_terms), "disagreements": len(bad_e)})
     rep.add("traces_validated_against_impl", len(ex_terms))
+    # requested source features next to a consumer that needs a join of that source (harness/c02_joinreq.py)
+    from harness import c02_joinreq
+    found = c02_joinreq.family(rep, random.Random(seed * 41 + 3), big) or found
     rep.add("rule", "merge-free request DAGs (harness/daggen.gen_single_root): 1 root group (DataCreator or api_data, 1-3 integer columns "
                     "with nulls and large magnitudes, 1-4 rows), 1-4 derived groups x 1-3 features, frameworks from {PyArrow, Pandas, "
                     "PythonDict} changing between groups, 1-3 requested features. non-trivial = at least 3 groups")
@@ -375,6 +378,9 @@ def run(rep: vlib.Reporter, tier: str, seed: int) -> None:
 def replay(path: str) -> int:
     r = json.load(open(path))["replay"]
     install()
+    if r.get("kind") == "joinreq":
+        from harness import c02_joinreq
+        return c02_joinreq.replay(r)
     rec = one(r["spec"])
     print(json.dumps({k: rec.get(k) for k in ("status", "exc", "obs", "bad_shape", "acts")}, indent=1, default=str))
     from harness.universe import ref_eval_single_root
